@@ -160,6 +160,17 @@ def handle_one(row_filter: Callable[[dict[str, Any]], bool] | None = None):
     return program
 
 
+def handle_upto(n: int):
+    """Worker program: up to ``n`` poll cycles of a real worker loop (an empty poll is one cycle)."""
+    one = handle_one()
+
+    def program(s: Sched, i: int) -> None:
+        for _ in range(n):
+            one(s, i)
+            s.labels[i] = "idle"
+    return program
+
+
 def explore(make_world: Callable[[], World], programs_for: Callable[[World], list[Callable[[Sched, int], None]]],
             judge: Callable[[World, Sched, dict[int, int]], None], max_preemptions: int, max_runs: int = 100000,
             roots: list[dict[int, int]] | None = None) -> int:
